@@ -19,7 +19,8 @@ fn value_for_whole(h: &[f64], k: i128) -> f64 {
     }
     let j = (k - 1).min(n - 1) as usize;
     if (j as i128) < n - 1 {
-        (h[j] + h[j + 1]) / 2.
+        // evaluated so that it cannot overflow for |h| near f64::MAX
+        h[j] / 2. + h[j + 1] / 2.
     } else {
         h[j]
     }
